@@ -11,9 +11,10 @@ CONSTANTS
   DedupSigners = TRUE
   DirectOpen = FALSE
   QueryOpen = FALSE
+  QueryTouches = FALSE
   TallyOnly = FALSE
 VIEW view
 CONSTRAINT Viable
 INVARIANTS TypeOK CountedOnce UniformApplication
-PROPERTIES ChangeOnlyIfAuthorised ChangeAtEndBlockOnly ReplayChangesNothing NoSideChannel
+PROPERTIES ChangeOnlyIfAuthorised ChangeAtEndBlockOnly ReplayChangesNothing NoSideChannel OutcomeFromBlockAlone
 CHECK_DEADLOCK FALSE
